@@ -354,6 +354,25 @@ func (p *pools) badAcc(r *lib.Rand) string {
 	}
 }
 
+// nearAcc: well-formed bech32 texts with a valid checksum that are not account addresses of this chain: a foreign
+// human-readable part (other chains, this chain's validator / public-key parts) over a 20-byte payload
+func (p *pools) nearAcc(r *lib.Rand) string {
+	if r.Chance(25) {
+		return p.valOK[r.Intn(len(p.valOK))]
+	}
+	acc := sdk.GetConfig().GetBech32AccountAddrPrefix()
+	hrps := []string{"fx", "osmo", "px", acc + "valoper", acc + "pub", acc + "valcons", "a", strings.ToUpper(acc)}
+	hrp := hrps[r.Intn(len(hrps))]
+	if hrp == acc {
+		hrp = "osmo"
+	}
+	s, err := bech32.ConvertAndEncode(hrp, randBytes(r, 20))
+	if err != nil {
+		s, _ = bech32.ConvertAndEncode("osmo", randBytes(r, 20))
+	}
+	return s
+}
+
 func (p *pools) badVal(r *lib.Rand) string {
 	switch r.Intn(4) {
 	case 0:
